@@ -132,7 +132,7 @@ class CaseGen:
         rng = self.rng
         if cap is None:
             return rng.choice([0, 1, 16, 32, rng.randint(0, hard_max)])
-        return rng.choice([0, 1, max(cap - 1, 0), cap, rng.randint(0, cap)])
+        return min(cap, rng.choice([0, 1, max(cap - 1, 0), cap, rng.randint(0, cap)]))
 
     def rand_uint(self, w):
         mx = {"u8": 0xFF, "u32": 0xFFFFFFFF, "u64": 0xFFFFFFFFFFFFFFFF}[w]
